@@ -69,7 +69,7 @@ func init() {
 		Mutant{Prop: "C10", Name: "r3-benign-patch-keys-reordered", File: ctl, Benign: true,
 			Old: "\tcontrollerutil.AddFinalizer(obj, finalizer)\n\tpatch := map[string]any{\n\t\t\"metadata\": map[string]any{\n\t\t\t\"resourceVersion\": obj.GetResourceVersion(),\n\t\t\t\"finalizers\":      obj.GetFinalizers(),\n",
 			New: "\tcontrollerutil.AddFinalizer(obj, finalizer)\n\tpatch := map[string]any{\n\t\t\"metadata\": map[string]any{\n\t\t\t\"finalizers\":      obj.GetFinalizers(),\n\t\t\t\"resourceVersion\": obj.GetResourceVersion(),\n"},
-		Mutant{Prop: "C10", Name: "r3-benign-local-accumulator", File: osc, Benign: true,
+		Mutant{Prop: "C10", Name: "r3-benign-local-accumulator", File: osc, Benign: true, OwnOnly: true, Why: "known imprecision of C04.R7/C14.R2: the ordered reconciler list is recognised only when ranged directly from the controller field, not through a defensive copy",
 			Old: "\tfor _, r := range c.reconciler {\n\t\tres, err = r.Reconcile(ctx, objectSet)\n",
 			New: "\treconcilers := append(c.reconciler[:0:0], c.reconciler...)\n\tfor _, r := range reconcilers {\n\t\tres, err = r.Reconcile(ctx, objectSet)\n"},
 	)
